@@ -14,6 +14,7 @@ import text_gen as g
 from markup_util import run_cases, impl_expand, canon_cfg
 import text_tree
 import attrtext_gen as atg
+import wrap_gen2 as w2
 
 HERE = os.path.dirname(os.path.abspath(__file__))
 CORPUS = os.path.join(os.path.dirname(os.path.dirname(HERE)), 'corpus', 'C04')
@@ -46,7 +47,8 @@ def oracle(abbr, cfg, meta, r):
         return None
     if r[0] != 'ok':
         return 'expand did not return a string: %r' % (r,)
-    if not match_alt(meta['pieces'], r[1]):
+    # alt_pieces: further acceptable outputs where the statement leaves something open (an explicit count of zero)
+    if not any(match_alt(p, r[1]) for p in [meta['pieces']] + list(meta.get('alt_pieces') or [])):
         return 'output %r does not carry the text as written; expected pieces %r' % (r[1][:300], meta['pieces'][:12])
     return None
 
@@ -306,6 +308,124 @@ def gen_wrap_nested(ctx, n):
             out.append(case('wrap:nested-explicit' + ('+$#' if g.has_ph(x) else ''), abbr, pieces, plain({'text': lines})))
             if any(l.strip() for l in lines):
                 ctx.nontrivial((abbr, tuple(lines)))
+    return out
+
+
+# ---------------------------------------------------------------- abbreviations as typed (harness/wrap_gen2.py)
+TYPED_ZERO_COUNT = True      # explicit counts of zero (`*0`, `*00`): both "no copy" and "one copy" accepted
+TYPED_HALF = True            # closing brackets at the end of the abbreviation not typed yet
+
+
+def typed_case(ctx, roots, lines, cut, fixed=False):
+    abbr = w2.render(roots)
+    nodes = w2.all_nodes(roots)
+    starred = any(n.star for n in nodes)
+    ph = any(w2.has_ph(r) for r in roots)
+    reps = [n.rep for n in nodes if n.rep]
+    zero = any(int(r) == 0 for r in reps)
+    kind = 'typed:' + ('implicit' if starred else 'plain' if lines is not None else 'no-text') + ('+$#' if ph else '')
+    if cut:
+        assert 1 <= cut <= w2.trailing_closers(roots)
+        abbr = abbr[:-cut]
+        kind += ':half-typed'
+        ctx.cover('typed:half-typed:%d closing bracket(s) missing' % min(cut, 4))
+        ctx.cover('typed:half-typed:ends in ' + ('`$#`' if abbr.endswith('$#') else 'other content'))
+        m = re.search(r'=\{[^{}"\']*$', abbr)
+        ctx.cover('typed:half-typed:innermost open = ' + ('attribute expression' if m else 'other'))
+    if zero:
+        kind += ':count0'
+    for r in reps:
+        ctx.cover('typed:count spelled *' + ('0' * (len(r) - len(r.lstrip('0'))) + 'N' if int(r) else '0' * min(len(r), 3)))
+    for n in nodes:
+        if (n.star or n.rep) and not n.group and (n.attrs or n.text or n.ph):
+            ctx.cover('typed:repeater ' + ('directly after the name' if n.rpos == 0 else 'after the last part'
+                                           if n.rpos >= len([1 for p in (n.attrs, n.text or n.ph) if p]) else 'between attributes and text'))
+        if not n.group:
+            for a in n.attrs:
+                if a['ph']:
+                    ctx.cover('typed:$# in attribute form ' + {'u': 'unquoted', 'd': 'double-quoted', 's': 'single-quoted', 'e': '{expression}'}[a['form']])
+    cfg = plain({'text': lines} if lines is not None else None)
+    alt = [g.merge_pieces(w2.pieces(w2.expect(roots, lines, 0)))] if zero else None
+    cs = case(kind, abbr, w2.pieces(w2.expect(roots, lines, 1)), cfg, alt_pieces=alt)
+    if not fixed and (lines is None or any(l.strip() for l in lines)):
+        ctx.nontrivial((abbr, tuple(lines or ())))
+    return cs
+
+
+def _el(name, text='', ph=False, attrs=(), kids=(), star=False, rep=None, rpos=2, order='at', bare=True, group=False):
+    n = w2.N2(name, text, kids, group)
+    n.ph, n.star, n.rep, n.rpos, n.order, n.bare = ph, star, rep, rpos, order, bare
+    n.attrs = [dict(name=a[0], form=a[1], pre=a[2], post=a[3], ph=a[4]) for a in attrs]
+    return n
+
+
+def gen_typed(ctx, n):
+    """Abbreviations as typed: boundary spellings of explicit counts, repeater at every position of the element,
+    `$#` in every attribute value form, closing brackets at the end not typed yet.  See harness/wrap_gen2.py."""
+    rng = ctx.rng
+    out = []
+    two = ['one', ' ', 'two ']
+    # sweep 1: every spelling of a count at every place relative to the receiving element, with lines / without text
+    spellings = sorted(set(w2.REP_SPELLINGS)) if TYPED_ZERO_COUNT else [s for s in sorted(set(w2.REP_SPELLINGS)) if int(s)]
+    for sp in spellings:
+        shapes = [
+            lambda: [_el('ul', kids=[_el('li', rep=sp)])],
+            lambda: [_el('ul', kids=[_el('li', 't', rep=sp, rpos=0)])],
+            lambda: [_el('ul', rep=sp, kids=[_el('li')])],
+            lambda: [_el('div', kids=[_el(None, group=True, rep=sp, kids=[_el('p'), _el('q', kids=[_el('b')])])])],
+            lambda: [_el('li', rep=sp, kids=[_el('b')]), _el('em')],
+            lambda: [_el('li', star=True, kids=[_el('b', rep=sp)])],
+            lambda: [_el('li', star=True, kids=[_el('b', ph=True, rep=sp)])],
+            lambda: [_el('li', star=True, attrs=[('title', 'u', '', '', True)]), _el('p', rep=sp)],
+            lambda: [_el('p', rep=sp), _el('ul', kids=[_el('li', star=True)])],
+        ]
+        for mk in shapes:
+            for lines in (two, ['a', 'b', 'c'], None):
+                roots = mk()
+                if lines is None and any(w2.has_star(r) for r in roots):
+                    continue
+                out.append(typed_case(ctx, roots, lines, 0, True))
+    # sweep 2: every attribute form / text as the last thing typed, with and without `$#`, every number of missing closers
+    if TYPED_HALF:
+        for form in 'udse':
+            for pre, post in (('', ''), ('x', ''), ('', 'y'), ('<', '>')):
+                if form == 'u' and pre == '<':
+                    continue
+                for ph in (True, False):
+                    if not ph and not pre + post:
+                        continue
+                    shapes = [
+                        lambda: [_el('ul', kids=[_el('li', star=True, rpos=0, attrs=[('data-v', form, pre, post, ph)])])],
+                        lambda: [_el('ul', kids=[_el('li', star=True, rpos=0, attrs=[('a', 'e', '', '', ph), ('b', form, pre, post, ph)])])],
+                        lambda: [_el('ul', kids=[_el('li', star=True, rpos=0, text='t', ph=ph, order='ta', attrs=[('a', form, pre, post, ph)])])],
+                        lambda: [_el('ul', bare=False, kids=[_el('li', star=True, bare=False, kids=[_el('b', attrs=[('a', form, pre, post, ph)])])])],
+                        lambda: [_el('div', kids=[_el('p', attrs=[('a', form, pre, post, False)] if pre + post else [('a', form, 'v', '', False)])])],
+                    ]
+                    for mk in shapes:
+                        for cut in range(0, w2.trailing_closers(mk()) + 1):
+                            out.append(typed_case(ctx, mk(), two, cut, True))
+        for text, ph in (('', True), ('ab ', True), ('t', False), ('a{b}', True), ('{b}', False)):
+            for mk in (lambda: [_el('ul', kids=[_el('li', text, ph, star=True, rpos=0)])],
+                       lambda: [_el('ul', bare=False, kids=[_el('li', star=True, bare=False, kids=[_el('b', text, ph)])])],
+                       lambda: [_el('ul', kids=[_el('li', text, False)])]):
+                for cut in range(0, w2.trailing_closers(mk()) + 1):
+                    out.append(typed_case(ctx, mk(), two, cut, True))
+    for _ in range(n):
+        half = TYPED_HALF and rng.random() < 0.45
+        want_star = rng.random() < 0.6
+        roots, lines = w2.rand_case(rng, want_star, half)
+        if not TYPED_ZERO_COUNT:
+            for nd in w2.all_nodes(roots):
+                if nd.rep and int(nd.rep) == 0:
+                    nd.rep = '1'
+        if not want_star and rng.random() < 0.12:
+            lines = None
+        cut = 0
+        if half:
+            c = w2.trailing_closers(roots)
+            if c:
+                cut = rng.randint(1, c)
+        out.append(typed_case(ctx, roots, lines, cut))
     return out
 
 
@@ -777,7 +897,15 @@ def run(ctx):
         'default attributes, void elements; expected tags hard-coded from the Emmet cheat sheet) in every role -- receiving element, '
         'its ancestors, earlier and later siblings -- each alias swept once per role, then random trees mixing alias and plain names, '
         'markup.href on and off; multi-element snippets (`ul+`, `table+` ...) and multi-line strings under an implicit repeater are '
-        'compared model vs implementation only; non-trivial = non-empty '
+        'compared model vs implementation only; (typed:*, harness/wrap_gen2.py) abbreviations AS TYPED: explicit repeat counts at '
+        'their numeric boundaries in every spelling (*0 *00 *000 *1 *01 *001 *2 *02 *3 *03 *10 *010) on elements and groups beside, '
+        'below, instead of the implicit repeater (above it: counts 0 and 1 only), with line lists and without text; for a count of '
+        'ZERO the statement does not fix the number of copies: no copy and one copy are both accepted, a number depending on the '
+        'lines is not; the repeater written directly after the name / between attributes and text / last; attributes and text in '
+        'either order; `$#` in unquoted, double-quoted, single-quoted and {expression} attribute values with literal text around '
+        'it, up to 3 attributes per element; HALF-TYPED abbreviations whose closing `}` `]` `)` at the end are not typed yet (1 .. all '
+        'missing; each value form and text swept as the last thing typed with and without `$#`): the expected output is that of '
+        'the completed abbreviation; non-trivial = non-empty '
         'payload / at least one non-blank line; distinct by (abbreviation, lines). Oracle: the output predicted from the payload by '
         'the statement (unescape; per-line placement) must equal emmet.expand under a configuration that adds nothing between tags. '
         'Outside-domain inputs are compared model vs implementation only. (nested:*) payloads in which literal runs alternate with `$` '
@@ -794,6 +922,7 @@ def run(ctx):
     cases += gen_wrap(ctx, 1500 if quick else 25000)
     cases += gen_wrap_nested(ctx, 800 if quick else 12000)
     cases += gen_wrap_alias(ctx, 900 if quick else 20000)
+    cases += gen_typed(ctx, 700 if quick else 25000)
     cases += gen_outside(ctx, 1500 if quick else 30000)
     nested = gen_nested(ctx, 1200 if quick else 12000)
     cases += nested
